@@ -37,6 +37,16 @@ var alphaGen = []string{"a", "A", " ", ".", ",", "é", "ß", "\xff", "\n", "_", 
 // (ı→I 2→1 bytes, ɐ→Ɐ 2→3 bytes), a digraph with a title case (ǆ) and '-'.
 var alphaCase = []string{"a", "A", " ", ".", ",", "é", "ß", "\xff", "\n", "_", "1", "ı", "ɐ", "ǆ", "-"}
 
+// longer strings for the functions that walk runes: a 2-byte letter (é), runes
+// whose upper case is shorter (ı) or longer (ɐ) in UTF-8, a 4-byte lower-case
+// letter without case mapping (𝐚), an upper-case letter, 2- and 3-byte
+// separators (NBSP, EM SPACE), an ASCII separator and invalid bytes.
+var alphaCaseLong = []string{"a", "A", " ", "é", "ı", "ɐ", "𝐚", "\u00a0", "\u2003", "\xff", "\xc3"}
+
+// search/trim helpers: 1-, 2- and 3-byte runes, invalid bytes, and the two
+// halves of é (0xC3, 0xA9) so that byte-wise and rune-wise matches differ.
+var alphaSearchLong = []string{"a", "é", "€", "\xff", "\xc3", "\xa9"}
+
 var ints = []int{math.MinInt, -1, 0, 1, 2, 3, 7, 36, 37, math.MaxInt}
 
 // prefix / indent strings
@@ -85,15 +95,10 @@ func (f fspace) kit() kit.Space {
 // keyPrefix maps a space to the function its keys are about: several spaces
 // can explore one function with different alphabets.
 func keyPrefix(space string) string {
-	switch space {
-	case "Abbreviate.words":
-		return "Abbreviate"
-	case "IndentJSON.ws", "IndentJSON.data":
-		return "IndentJSON"
-	case "QueryEscape.bytes":
-		return "QueryEscape"
-	case "ParseTime.auto":
-		return "ParseTime"
+	for _, sfx := range []string{".words", ".invalid", ".ws", ".data", ".bytes", ".auto", ".utf8"} {
+		if strings.HasSuffix(space, sfx) {
+			return strings.TrimSuffix(space, sfx)
+		}
 	}
 	return space
 }
